@@ -396,6 +396,11 @@ func (b *Bucket) OpenUploadStreamWithID(ctx context.Context, id interface{}, nam
 		chunkSize = int(*opt.ChunkSizeBytes)
 	}
 
+	// check chunk size
+	if chunkSize <= 0 {
+		return nil, fmt.Errorf("invalid chunk size %d", chunkSize)
+	}
+
 	// copy metadata as the caller may change it before the stream is closed
 	metadata := opt.Metadata
 	if metadata != nil {
